@@ -229,10 +229,11 @@ Record vcase := mkvc {
   c_sim : simres          (* simulate_gt + write_breakpoints after acceptance *)
 }.
 
+Definition unobserved (o : outcome) : bool :=
+  match o with Crash k => k =? 97 | _ => false end.   (* E_Unobserved *)
+
 Definition holds_outcome (i : vin) (o : outcome) (s : simres) : bool :=
-  match o with
-  | Crash 97 => true                                   (* E_Unobserved *)
-  | _ =>
+  if unobserved o then true else
     if valid_b i then
       match o, nsamples i with
       | Accept ps, Some n =>
@@ -245,8 +246,7 @@ Definition holds_outcome (i : vin) (o : outcome) (s : simres) : bool :=
       | Reject k => existsb (Z.eqb (clause_of k)) (violated i)
       | _ => false
       end
-    else true
-  end.
+    else true.
 
 Definition holds_front (c : vcase) : bool := holds_outcome (c_in c) (c_front c) (c_sim c).
 Definition model_front (c : vcase) : outcome := front false false (c_in c).
